@@ -18,7 +18,7 @@ RULE = ("the real `any` main (compiled from /repo/src/bin/any.rs) is run as a pr
 
 PLURAL_UNITS = ["decade", "century", "millenium", "gallon", "btu", "cable", "acre", "hand", "pint", "cup"]
 
-def gen_query(rng, V, facts):
+def gen_query(rng, V, facts, extra=None):
     r = rng.random()
     def value():
         t = exact.gen_tree(rng, rng.randint(0, 3), max_digits=8, max_exp=12)
@@ -50,14 +50,23 @@ def gen_query(rng, V, facts):
         return "%s to %s" % (a, G.text(fs))            # mostly an error (illegal cast), sometimes fine
     if r < 0.7:
         return " ".join(rng.choice(facts)["tokens"])
-    if r < 0.8:
+    if r < 0.76:
         return "%s * %s" % (" ".join(rng.choice(facts)["tokens"]), quantity())
-    if r < 0.9:
+    if r < 0.8:
         # several results: juxtaposed parenthesised expressions, some failing
         parts = []
         for _ in range(rng.randint(2, 4)):
             parts.append(rng.choice(["(%s)" % value(), "(%s)" % quantity(), "(1 / 0)", "(1 m + 1 s)", "(round(2.5))", "(zzqqxx)"]))
         return " ".join(parts)
+    if rng.random() < 0.5 and extra:
+        # the hostile families of C11 (token soups, structured queries with mutations, mutated corpus queries): every kind of
+        # diagnostic the library can produce has to come out of the binary the same way
+        import c11
+        x = rng.random()
+        s = c11.gen_soup(rng, extra["vocab"]) if x < 0.3 else c11.gen_structured(rng, extra["vocab"]) if x < 0.8 else c11.mutate(rng, rng.choice(extra["corpus"]))
+        s = c11.bound_powers(s)
+        if "\x00" not in s and len(s) < 300:
+            return s
     return rng.choice(["1 / 0", "1 m + 1 s", "floor()", "1 +", ")", "5 %", "0 ^ -1", "1e3 m to s", "{a b}", "1 decade", "1 decades", "100 cm to m"])
 
 def expected_stdout(items, exact_mode):
@@ -94,7 +103,7 @@ def shard(p):
                                  and r0["items"][0]["ok"].get("disp") != r0["items"][0]["ok"].get("disp_pl")})
         acc.seen("pluralisable_unit_words", tuple(V.pluralisable))
         for _ in range(p["n"]):
-            q = gen_query(rng, V, p["facts"])
+            q = gen_query(rng, V, p["facts"], {"vocab": p["vocab"], "corpus": p["corpus"]} if p.get("vocab") else None)
             exact_mode = rng.random() < 0.5
             rep = d.call({"op": "query", "q": q, "full": True, "render": True})
             if "panic" in rep or "items" not in rep:
@@ -180,7 +189,14 @@ def run(tier, seed):
             print("C19: INCONCLUSIVE - `any 1` failed to build its index: %s" % r.stderr.decode()[-500:])
             return 2
         n = 6400 if tier == "quick" else 100000
-        payloads = [{"seed": seed, "shard": i, "n": n // NCPU, "facts": ty, "vdriver": b["vdriver"], "any": b["any"], "home": home} for i in range(NCPU)]
+        import c11
+        fwords = sorted({t for f in facts for t in f["tokens"] if FX.WORD.match(t)})
+        from core import units_ref as R
+        vocab = {"units": sorted(R.NAME2UNITS) + ["m^2", "s^-1", "km/h", "kg*m/s^2", "°C", "°F"], "facts": fwords}
+        corp = c11.corpus()
+        br = build.build("rel")      # every fourth shard runs the release build of the real main (and of the library it is compared with)
+        payloads = [{"seed": seed, "shard": i, "n": n // NCPU, "facts": ty, "vdriver": (br if i % 4 == 3 else b)["vdriver"], "any": (br if i % 4 == 3 else b)["any"], "home": home,
+                     "vocab": vocab, "corpus": corp} for i in range(NCPU)]
         acc = run_shards(shard, payloads)
     finally:
         shutil.rmtree(home, ignore_errors=True)
